@@ -687,7 +687,8 @@ class RefCompu:
         if cat in ("LINEAR", "SCALE-LINEAR"):
             alts: List[Any] = []
             for pc in self.pieces:
-                if self._outside(P, pc.hull()):
+                # (a constant piece on a half line: odxtools derives a one-sided physical range, see hull_claim)
+                if self._outside(P, pc.hull_claim() if pc.slope == 0 else pc.hull()):
                     continue
                 if pc.slope != 0:
                     alts.append(pc.finv(P))
